@@ -129,6 +129,7 @@ def check(repo: Repo, rep, tier):
     driver_filter(repo, rep)
     flags_not_approval(repo, rep)
     ci_detect(repo, rep)
+    xdist_worker(repo, rep)
     stale_bindings(repo, rep, {"config", "_current"}, "e.g. a copied state/config object keeps the flags of import time, so approval decisions are taken on stale data")
 
 
@@ -245,6 +246,33 @@ def writers(repo: Repo, rep):
             rep.ok("R-WHO-MAY-WRITE", w, w.node, f"{w.qualname} reachable only from {sorted(roots)}")
 
 
+def detector_role(g: Func) -> Optional[str]:
+    """Which environment detector is g?  By what it reads, not by its name: xdist's option
+    `numprocesses` / `workerinput` / PYTEST_XDIST_WORKER; a table of CI variables containing "CI";
+    `sys.implementation`."""
+    if g.module.rel != "pytest_plugin.py":
+        return None
+    attrs = {x.attr for x in body_nodes(g.node) if isinstance(x, ast.Attribute)}
+    consts = {x.value for x in body_nodes(g.node) if isinstance(x, ast.Constant) and isinstance(x.value, str)}
+    if {"numprocesses", "workerinput"} & (attrs | consts) or "PYTEST_XDIST_WORKER" in consts:
+        return "xdist"
+    if "implementation" in attrs:
+        return "impl"
+    if {"CI", "GITHUB_ACTIONS"} <= consts:
+        return "ci"
+    return None
+
+
+def detectors(repo: Repo, role: str) -> List[Func]:
+    m = repo.modules.get("pytest_plugin.py")
+    return [g for g in repo.pkg_funcs() if g.module is m and g.parent is None and g.cls is None and not g.name.startswith("pytest_") and detector_role(g) == role]
+
+
+def the_detector(repo: Repo, role: str, fallback: str) -> Func:
+    ds = detectors(repo, role)
+    return ds[0] if len(ds) == 1 else repo.func(fallback)
+
+
 def guard_atoms(repo: Repo, f: Func, cfg: CFG):
     """Condition nodes of the 'session is disabled' guards and the label of their
     *enabled* edge."""
@@ -256,12 +284,12 @@ def guard_atoms(repo: Repo, f: Func, cfg: CFG):
             e = e.value
         if isinstance(e, ast.Call):
             tg, _ = cg.call_targets(f, e)
-            names = {t.key for t in tg}
-            if "pytest_plugin.py::xdist_running" in names:
+            roles = {detector_role(t) for t in tg}
+            if "xdist" in roles:
                 out["xdist"].append((c, "F"))
-            if "pytest_plugin.py::is_ci_run" in names:
+            if "ci" in roles:
                 out["ci"].append((c, "F"))
-            if "pytest_plugin.py::is_implementation_supported" in names:
+            if "impl" in roles:
                 out["impl"].append((c, "T"))
         ch = attr_chain(e) if isinstance(e, ast.Attribute) else None
         if ch == ["state()", "active"]:
@@ -901,7 +929,7 @@ def ci_detect(repo: Repo, rep):
         "os.environ.get(var) / os.environ[var] / os.getenv(var)) and answers truthy as soon as one is set to a non-empty value: selecting one variable by "
         "mere presence and testing only that one lets a defined-but-empty variable hide the others",
     )
-    f = repo.func("pytest_plugin.py::is_ci_run")
+    f = the_detector(repo, "ci", "pytest_plugin.py::is_ci_run")
     tables = [x for x in body_nodes(f.node) if isinstance(x, ast.Assign) and isinstance(x.value, (ast.Tuple, ast.List)) and len(x.value.elts) >= 3]
     if not tables:
         rep.undecided("R-CI-DETECT", "table of CI variables not found")
@@ -925,3 +953,141 @@ def ci_detect(repo: Repo, rep):
             rep.ok("R-CI-DETECT", f, it, "each variable's value is tested")
         else:
             rep.violation("R-CI-DETECT", f, it, "is_ci_run() picks a variable by presence (`var in os.environ`) instead of testing every variable's value: with e.g. CI='' and BUILD_NUMBER=17 the CI run is not detected and files are rewritten" if presence_only else "is_ci_run() iterates its table without testing the variables' values", construct="presence-only")
+
+
+# ------------------------------------------------------------------ xdist workers
+
+
+def _abs_eval(e: ast.AST, env: dict):
+    """Three-valued evaluation of an expression of the xdist detector in a *worker process of
+    pytest-xdist*: `config.workerinput` exists, PYTEST_XDIST_WORKER is set, and
+    `config.option.numprocesses` exists and is None (xdist/remote.py resets it).
+    Values: True / False / "none" (the object None) / None (unknown)."""
+    if isinstance(e, ast.Constant):
+        return "none" if e.value is None else bool(e.value) if isinstance(e.value, (bool, int, str)) else None
+    if isinstance(e, ast.Name):
+        return env.get(e.id)
+    if isinstance(e, ast.NamedExpr):
+        v = _abs_eval(e.value, env)
+        env[e.target.id] = v
+        return v
+    if isinstance(e, ast.BoolOp):
+        vals = [_abs_eval(x, env) for x in e.values]
+        truth = [None if v is None else (v is True) for v in vals]
+        if isinstance(e.op, ast.And):
+            if any(t is False for t in truth):
+                return False
+            return True if all(t is True for t in truth) else None
+        if any(t is True for t in truth):
+            return True
+        return False if all(t is False for t in truth) else None
+    if isinstance(e, ast.UnaryOp) and isinstance(e.op, ast.Not):
+        v = _abs_eval(e.operand, env)
+        return None if v is None else not (v is True)
+    if isinstance(e, ast.IfExp):
+        t = _abs_eval(e.test, env)
+        if t is None:
+            a, b = _abs_eval(e.body, env), _abs_eval(e.orelse, env)
+            return a if a == b else None
+        return _abs_eval(e.body if t is True else e.orelse, env)
+    if isinstance(e, ast.Attribute):
+        if e.attr == "numprocesses":
+            return "none"
+        if e.attr == "workerinput":
+            return True
+        return None
+    if isinstance(e, ast.Call):
+        fn = norm(e.func)
+        a = e.args
+        if fn == "hasattr" and len(a) == 2 and isinstance(a[1], ast.Constant):
+            return True if a[1].value in ("numprocesses", "workerinput") else None
+        if fn == "getattr" and len(a) >= 2 and isinstance(a[1], ast.Constant):
+            if a[1].value == "numprocesses":
+                return "none"
+            if a[1].value == "workerinput":
+                return True
+            return None
+        if fn == "bool" and len(a) == 1:
+            v = _abs_eval(a[0], env)
+            return None if v is None else (v is True)
+        if fn in ("os.environ.get", "os.getenv", "environ.get") and a and isinstance(a[0], ast.Constant):
+            return True if a[0].value == "PYTEST_XDIST_WORKER" else None
+        return None
+    if isinstance(e, ast.Subscript) and norm(e.value) in ("os.environ", "environ") and isinstance(e.slice, ast.Constant):
+        return True if e.slice.value == "PYTEST_XDIST_WORKER" else None
+    if isinstance(e, ast.Compare) and len(e.ops) == 1:
+        l, r = _abs_eval(e.left, env), _abs_eval(e.comparators[0], env)
+        op = e.ops[0]
+        if isinstance(op, (ast.In, ast.NotIn)) and isinstance(e.left, ast.Constant) and norm(e.comparators[0]) in ("os.environ", "environ"):
+            if e.left.value == "PYTEST_XDIST_WORKER":
+                return isinstance(op, ast.In)
+            return None
+        if isinstance(op, (ast.Is, ast.IsNot)) and isinstance(e.comparators[0], ast.Constant) and e.comparators[0].value is None:
+            if l is None:
+                return None
+            return (l == "none") == isinstance(op, ast.Is)
+        if isinstance(op, (ast.Eq, ast.NotEq)) and l == "none" and isinstance(e.comparators[0], ast.Constant) and e.comparators[0].value is not None:
+            return isinstance(op, ast.NotEq)  # None == 0 is False, None != 0 is True
+        if isinstance(op, (ast.Gt, ast.GtE, ast.Lt, ast.LtE)) and l == "none":
+            return None  # TypeError at run time; leave it to the fall-back
+        return None
+    return None
+
+
+def _abs_run(stmts, env: dict):
+    """("ret", value) / ("fall",) / ("unknown",) for a statement list of the detector."""
+    for s in stmts:
+        if isinstance(s, ast.Return):
+            return ("ret", _abs_eval(s.value, env) if s.value is not None else "none")
+        if isinstance(s, ast.If):
+            t = _abs_eval(s.test, env)
+            if t is None:
+                a, b = _abs_run(s.body, dict(env)), _abs_run(s.orelse, dict(env))
+                if a == b and a[0] == "ret":
+                    return a
+                if a[0] == "fall" and b[0] == "fall":
+                    continue
+                return ("unknown",)
+            r = _abs_run(s.body if t is True else s.orelse, env)
+            if r[0] != "fall":
+                return r
+            continue
+        if isinstance(s, ast.Assign) and len(s.targets) == 1 and isinstance(s.targets[0], ast.Name):
+            env[s.targets[0].id] = _abs_eval(s.value, env)
+            continue
+        if isinstance(s, (ast.Expr, ast.Pass, ast.Import, ast.ImportFrom)):
+            continue
+        return ("unknown",)
+    return ("fall",)
+
+
+def xdist_worker(repo: Repo, rep):
+    rep.rule(
+        "R-XDIST-WORKER",
+        "the xdist detector (the function of pytest_plugin.py that reads `numprocesses`) answers truthy in a *worker* process of pytest-xdist, where "
+        "the tests run and the snapshots are recorded: there xdist has reset config.option.numprocesses to None (xdist/remote.py) and the only "
+        "indicators are config.workerinput and PYTEST_XDIST_WORKER.  Decided by a three-valued evaluation of the detector's body in that "
+        "environment; when the body is outside the evaluated fragment the fall-back is that it reads one of the two worker-side indicators at all.  "
+        "(External fact in the trusted base: pytest-xdist's worker set-up; section 5.)",
+    )
+    ds = detectors(repo, "xdist")
+    rep.floor("R-XDIST-WORKER", "xdist detectors in pytest_plugin.py", len(ds), 1)
+    for f in ds:
+        r = _abs_run(f.node.body, {})
+        reads = any((isinstance(x, ast.Attribute) and x.attr == "workerinput") or (isinstance(x, ast.Constant) and x.value in ("workerinput", "PYTEST_XDIST_WORKER")) for x in body_nodes(f.node))
+        if r[0] == "ret" and r[1] is not None:
+            if r[1] is True:
+                rep.ok("R-XDIST-WORKER", f, f.node, f"{f.qualname}() evaluates to True in an xdist worker")
+            else:
+                rep.violation(
+                    "R-XDIST-WORKER",
+                    f,
+                    f.node,
+                    f"{f.qualname}() evaluates to {'None' if r[1] == 'none' else r[1]} in an xdist worker (numprocesses is None there): with a category in default-flags / "
+                    "INLINE_SNAPSHOT_DEFAULT_FLAGS the workers stay active and rewrite the test files although the session reports that inline-snapshot was disabled because of xdist",
+                    construct="worker-undetected",
+                )
+        elif reads:
+            rep.ok("R-XDIST-WORKER", f, f.node, f"{f.qualname}() reads a worker-side indicator (body outside the evaluated fragment)")
+        else:
+            rep.violation("R-XDIST-WORKER", f, f.node, f"{f.qualname}() reads neither config.workerinput nor PYTEST_XDIST_WORKER: xdist workers are not recognised", construct="worker-undetected")
